@@ -40,7 +40,7 @@ Total(t) == CASE t.k \in {"lit","true","false","var"} -> TRUE
               [] OTHER -> FALSE
 CanName(s) == s.pos # <<>> /\ s.sub.k \in {"bin","neg","if"} /\ Total(s.sub) /\ FV(s.sub, 0) = {}
 NameAt(t, s) == LetT(<<[n |-> "?", ann |-> Hole(1, 1), def |-> Up(s.sub, 0, 1)]>>, Replace(Up(t, 0, 1), s.pos, Var(s.d)))
-\* exchange two adjacent definitions of a group that are both functions: positions j and j+1, indices n-j and n-j-1
+\* exchange two adjacent definitions of a group, at least one of which is a function: positions j and j+1, indices n-j and n-j-1
 RECURSIVE SwapIdx(_,_,_,_)
 SwapIdx(t, c, x, y) ==
   CASE t.k = "var" -> IF t.i = c + x THEN [t EXCEPT !.i = c + y] ELSE IF t.i = c + y THEN [t EXCEPT !.i = c + x] ELSE t
@@ -58,7 +58,9 @@ SwapDefs(g, j) ==   \* g is a let; definitions j and j+1 are exchanged
       ds == Mat([q \in 1..n |-> LET src == IF q = j THEN g.defs[j+1] ELSE IF q = j + 1 THEN g.defs[j] ELSE g.defs[q] IN [src EXCEPT !.ann = ren(src.ann), !.def = ren(src.def)]], n)
   IN [g EXCEPT !.defs = ds, !.b = ren(g.b)]
 SwapSites(t) == { s \in Subterms(t, <<>>, 0) : s.sub.k = "let" /\ Len(s.sub.defs) >= 2 }
-Swappable(g, j) == g.defs[j].def.k = "lam" /\ g.defs[j+1].def.k = "lam"
+\* ... at least one of the two is a function: a function is available to the whole group wherever it stands, only the
+\* relative order of the computed definitions matters
+Swappable(g, j) == g.defs[j].def.k = "lam" \/ g.defs[j+1].def.k = "lam"
 IsDefPos(pos) == Len(pos) >= 2 /\ pos[Len(pos) - 1] = "def"
 \* all single rewrites of t: set of [rule, t]
 Rewrites(t) ==
